@@ -291,6 +291,10 @@ def run(ctx):
         t_ = res(ie_).ret()
         ok_ = t_[0] == 'call' and t_[1] == 'std::option::Option::is_none' and t_[2][0][0] == 'call' and t_[2][0][1] == 'asefile::cel::CelsData::cel'
         ctx.inst('R5', 'Cel::is_empty', ok_, 'is_empty = %s; must be framedata.cel(id).is_none() without negation' % show(t_)[:120], ie_.span, key=ie_.name + '|R5|is_empty')
+    _c09.layer_cap(_R.View(ctx, {'V8': 'R5'}))      # layer ids fit the 16 bits of a cel id (seed C19-s removed the cap: layer l >= 65536 read layer l - 65536)
+    ok13_, why13_ = _inv.Inv(ctx).get('I13')
+    ctx.inst('R5', 'layer ids fit u16', ok13_, why13_, None, key='asefile::layer::LayersData::from_vec|R5|I13')
+    _render.opacity_and_mode(ctx, rule_o='R5', rule_m=None)     # every route blends with the same opacity product (seed C19-t)
     _c09.walk_tests_every_member(ctx, rule='R5')      # a hidden nested layer drawn by the frame but not "visible" (seed C19-o)
     _c09.level_source(_R.View(ctx, {'V7': 'R5'}))      # "visible" rests on the nesting levels as the file gives them (seed C19-k: u8)
     _render.gate(ctx, rule='R5')
